@@ -25,6 +25,7 @@ import collections.abc
 import dataclasses
 import datetime
 import decimal
+import enum
 import fractions
 import math
 import os
@@ -143,10 +144,27 @@ class Names(list):  # type: ignore
     groups: t.List[t.List[str]] = []
 
 
+def is_array(v: t.Any) -> bool:
+    return type(v).__module__ == 'numpy' and type(v).__name__ == 'ndarray'
+
+
 class Node:
     kind: str = '?'
     hashable: bool = False       # the *image* is always hashable
     spec: t.Any
+
+    def __init_subclass__(cls, **kw: t.Any) -> None:
+        super().__init_subclass__(**kw)
+        orig = cls.__dict__.get('ref')
+        if orig is not None:
+            # numpy arrays are declared interchange data (pane.convert.DataType), but what they denote for non-array
+            # targets is not documented: every reference verdict for an array input is "unspecified".  Totality (C04),
+            # two-pass agreement (C03) and the shape of results still apply to them.
+            def ref(self: t.Any, v: t.Any, _orig: t.Any = orig) -> t.Any:
+                if is_array(v):
+                    return Unspec('a numpy array given as data')
+                return _orig(self, v)
+            cls.ref = ref  # type: ignore
 
     def __init__(self, spec: t.Any):
         self.spec = spec
@@ -1263,4 +1281,12 @@ def plainify(v: t.Any, in_key: bool = False) -> t.Any:
     if is_seq(v):
         items = [plainify(x, in_key) for x in v]
         return tuple(items) if in_key else items
+    if is_array(v):
+        return plainify(v.tolist(), in_key)
+    # instances of subclasses of interchange types (user subclasses, mixin enum members) -> the plain value
+    if isinstance(v, enum.Enum):
+        return plainify(v.value, in_key)
+    for base in (bool, int, float, complex, str, bytes, bytearray):
+        if isinstance(v, base):
+            return v if type(v) is base else base(v) if base is not str else str.__str__(v)
     return v
